@@ -31,6 +31,20 @@ def _relative(cur: str, target: str) -> str | None:
     return "." * dots + ".".join(tgt[common:])
 
 
+def _inc(inc: str) -> str:
+    """Spelling of the spliced list: a local name, or the attribute form "@a" -> `a.__all__`."""
+    return inc[1:] + ".__all__" if inc.startswith("@") else inc
+
+
+def _export_item(e) -> dict:
+    if isinstance(e, str):
+        return {"s": e, "e": False}
+    par = getattr(e, "parent", None)
+    if getattr(e, "name", None) == "__all__" and par is not None and hasattr(par, "name") and not hasattr(par, "members"):
+        return {"s": "@" + par.name, "e": True}          # unexpanded `b.__all__`
+    return {"s": getattr(e, "name", str(e)), "e": True}
+
+
 def render_stmt(cur: str, s: dict) -> str:
     op = s["op"]
     if op == "def":
@@ -51,12 +65,12 @@ def render_stmt(cur: str, s: dict) -> str:
     if op == "import":
         return f"import {s['m']}" + (f" as {s['as']}" if s["as"] else "")
     if op == "all":
-        items = [repr(i) for i in s["items"]] + ([f"*{s['inc']}"] if s["inc"] else [])
+        items = [repr(i) for i in s["items"]] + ([f"*{_inc(s['inc'])}"] if s["inc"] else [])
         return "__all__ = [" + ", ".join(items) + "]"
     if op == "aug":
         if s["inc"] and not s["items"]:
-            return f"__all__ += {s['inc']}"
-        items = [repr(i) for i in s["items"]] + ([f"*{s['inc']}"] if s["inc"] else [])
+            return f"__all__ += {_inc(s['inc'])}"
+        items = [repr(i) for i in s["items"]] + ([f"*{_inc(s['inc'])}"] if s["inc"] else [])
         return "__all__ += [" + ", ".join(items) + "]"
     raise ValueError(op)
 
@@ -237,7 +251,7 @@ def project(griffe, collection, present: list) -> list:
                 tgt = dict(NIL)
             members.append({"n": n, "o": oid(mem), "k": k, "tp": tp, "tgt": tgt, "fin": oid(chain_final(mem))})
         ex = mod.exports
-        exports = [] if ex is None else [{"s": e, "e": False} if isinstance(e, str) else {"s": getattr(e, "name", str(e)), "e": True} for e in ex]
+        exports = [] if ex is None else [_export_item(e) for e in ex]
         out.append({"m": m, "has_all": ex is not None, "exports": exports, "members": members})
     return out
 
